@@ -30,6 +30,8 @@ pub enum Edit {
     Reorder { a_id: u32, b_id: u32 },
     Noop,
     Fault(Fault),
+    /// several of the above applied before one save (the user edits twice, saves once)
+    Multi(Vec<Edit>),
     /// an edit inside the function a composite site calls: one sub-site is replaced (Duo) or the
     /// delay line resized (DlySrc); the site keeps its identity, its other sub-site is untouched
     Inner { pos: usize, id: u32 },
@@ -363,6 +365,28 @@ impl ProgGen {
         }
         p.edit = Edit::Noop;
         p
+    }
+
+    /// Two or three single edits (no reorder, no inner edit) applied before one save.
+    pub fn multi_edit(&mut self, rng: &mut Rng, base: &Prog) -> Prog {
+        let k = rng.range(2, 3);
+        let mut cur = base.clone();
+        let mut edits = vec![];
+        for _ in 0..k {
+            let mut next = self.edit(rng, &cur);
+            let mut guard = 0;
+            while matches!(next.edit, Edit::Reorder { .. } | Edit::Inner { .. } | Edit::Noop) && guard < 6 {
+                next = self.edit(rng, &cur);
+                guard += 1;
+            }
+            if matches!(next.edit, Edit::Reorder { .. } | Edit::Inner { .. }) {
+                continue;
+            }
+            edits.push(next.edit.clone());
+            cur = next;
+        }
+        cur.edit = Edit::Multi(edits);
+        cur
     }
 
     pub fn faulty(&mut self, rng: &mut Rng, base: &Prog) -> Prog {
